@@ -365,3 +365,24 @@ def _m_yaml_same_name(job, rec, k):
         return False
     what = str(rec.get('what', ''))
     return ('KeyError' in what and rec.get('kind') == 'compile-raises') or bool(re.search(r"_num\d+/", what))
+
+
+@matcher('jacobian-slotwise-buffer-entry')
+def _m_jac_slot_buffer(job, rec, k):
+    """only programs with parallel delayed connections between one pair of variables (their source is read through a
+    buffer that is filled slot by slot), only history-matrix entries, and only entries that the emitted Jacobian function
+    itself declares as `could not differentiate ... entry left as 0`"""
+    spec = job.get('spec')
+    if spec is None or rec.get('kind') != 'jacobian-entry':
+        return False
+    pairs = {}
+    for e in spec.edges:
+        if e.delay:
+            pairs[(e.src, e.tgt)] = pairs.get((e.src, e.tgt), 0) + 1
+    if not any(n > 1 for n in pairs.values()):
+        return False
+    m = re.search(r"J_hist\[delay [^\]]*\]\[(\d+),(\d+)\]", str(rec.get('what', '')))
+    if not m:
+        return False
+    src = str(rec.get('jacobian_source', ''))
+    return bool(re.search(rf"could not differentiate J_hist_\w+\[{m.group(1)},\s*{m.group(2)}\] analytically", src))
